@@ -95,19 +95,31 @@ DriftStep(t, e, s) ==
 
 (* ---------------------------------------------------------------------------------- mqtt, drift *)
 MTop(t, e, s) == R!TokTopUp(s.tokm, s.mxm, t.maxtok, TokWindow, e.t - s.tsm)
+(* a top-up that lands within the rounding slack of the dump threshold may go either way: the model
+   follows the code there (the level seen at the call is kept in the pending entry's slack field) *)
+Ambiguous(t, t1) == LET thr == One - t.maxtok * 10000 IN t1 - thr <= TolTok(t) /\ thr - t1 <= TolTok(t)
 MqttDriftFail(t, e, s) ==
-  CASE e.k = "write" -> IF e.id \in s.dropm THEN "drift:mqtt_model_drops_this_write"
+  CASE e.k = "write" -> IF e.id \in s.dropm /\ ~Ambiguous(t, s.pend[IdxOf(s.pend, e.id)].slack) THEN "drift:mqtt_model_drops_this_write"
                         ELSE IF e.b # -1 /\ (e.b - s.tokm > TolTok(t) \/ s.tokm - e.b > TolTok(t)) THEN "drift:mqtt_tokens" ELSE ""
-    [] e.k = "ret"   -> IF e.id \notin s.dropm /\ IdxOf(s.pend, e.id) # 0 THEN "drift:mqtt_model_accepts_this_write" ELSE ""
+    [] e.k = "ret"   -> IF e.id \notin s.dropm /\ IdxOf(s.pend, e.id) # 0 /\ ~Ambiguous(t, s.pend[IdxOf(s.pend, e.id)].slack)
+                        THEN "drift:mqtt_model_accepts_this_write" ELSE ""
     [] OTHER -> ""
 MqttDriftStep(t, e, s) ==
   CASE e.k = "call"  -> LET t1 == MTop(t, e, s) IN
                         IF R!TokDrops(t1, t.maxtok, TokWindow)
-                          THEN [s EXCEPT !.tokm = t1, !.tsm = e.t, !.dropm = @ \cup {e.id}, !.pend = Append(@, [id |-> e.id, bits |-> 0, slack |-> 0, t |-> e.t])]
+                          THEN [s EXCEPT !.tokm = t1, !.tsm = e.t, !.dropm = @ \cup {e.id}, !.pend = Append(@, [id |-> e.id, bits |-> 0, slack |-> t1, t |-> e.t])]
                           ELSE [s EXCEPT !.tokm = t1 - One, !.tsm = e.t, !.mxm = R!TokNewMax(@, t1 - One, t.maxtok, TokWindow),
-                                         !.pend = Append(@, [id |-> e.id, bits |-> 0, slack |-> 0, t |-> e.t])]
-    [] e.k = "write" -> [s EXCEPT !.pend = IF IdxOf(@, e.id) = 0 THEN @ ELSE Remove(@, IdxOf(@, e.id))]
-    [] e.k = "ret"   -> [s EXCEPT !.pend = IF IdxOf(@, e.id) = 0 THEN @ ELSE Remove(@, IdxOf(@, e.id))]
+                                         !.pend = Append(@, [id |-> e.id, bits |-> 0, slack |-> t1, t |-> e.t])]
+    [] e.k = "write" -> LET i == IdxOf(s.pend, e.id) IN
+                        IF i = 0 THEN s
+                        ELSE IF e.id \in s.dropm      \* ambiguous call that the code accepted: reserve the token now
+                             THEN [s EXCEPT !.pend = Remove(@, i), !.tokm = @ - One, !.dropm = @ \ {e.id}]
+                             ELSE [s EXCEPT !.pend = Remove(@, i)]
+    [] e.k = "ret"   -> LET i == IdxOf(s.pend, e.id) IN
+                        IF i = 0 THEN s
+                        ELSE IF e.id \notin s.dropm   \* ambiguous call that the code dumped: hand the token back
+                             THEN [s EXCEPT !.pend = Remove(@, i), !.tokm = @ + One]
+                             ELSE [s EXCEPT !.pend = Remove(@, i)]
     [] OTHER -> s
 
 (* ---------------------------------------------------------------------------------- mqtt, contract *)
